@@ -1170,7 +1170,30 @@ def discharge(ob, timeout_ms=20000, seed=0, both=False):
                 return r
         return _orig_discharge(ob, timeout_ms, seed, both)
     # fewer hypotheses first: a proof without the axioms is a proof; a counter-model without them may be ill typed,
-    # so the full query gets its chance to refute it
+    # so the full query gets its chance to refute it (z3 only: cvc5 answers `unknown` on these array/quantifier queries)
+    import time as _time
+
+    t0 = _time.time()
+    sq = z3.Solver()
+    sq.set('timeout', min(int(timeout_ms), 6000))
+    sq.set('random_seed', seed)
+    for p in pc2:
+        sq.add(p)
+    sq.add(z3.Not(ob.goal))
+    rq = sq.check()
+    if rq == z3.unsat:
+        return {'status': 'proved', 'backend': 'z3', 'time': _time.time() - t0}
+    if rq == z3.sat and not both:
+        model = solve.small_model(ob, sq)
+        sf = z3.Solver()
+        sf.set('timeout', min(int(timeout_ms), 8000))
+        sf.set('random_seed', seed)
+        for p in ob.pc:
+            sf.add(p)
+        sf.add(z3.Not(ob.goal))
+        if sf.check() == z3.unsat:
+            return {'status': 'proved', 'backend': 'z3', 'time': _time.time() - t0}
+        return {'status': 'refuted', 'backend': 'z3', 'time': _time.time() - t0, 'model': model, 'detail': 'counter-model found' + note + '; the full query is undecided or agrees'}
     r2 = _orig_discharge(ob2, min(timeout_ms, 6000), seed, False)
     if r2.get('status') == 'proved':
         return r2
